@@ -48,6 +48,9 @@ def plan(tier, seed):
         groups[j].append(it)
         loads[j] += _cost(it)
     shards = [{"name": f"C18-{i}", "shard": i, "items": g, "x64": True, "timeout": 3400} for i, g in enumerate(groups)]
+    # distributions with a restricted support (named families and elementary bijections onto part of the line), both precisions
+    shards.append({"name": "C18-support-f64", "shard": 200, "items": [], "support": True, "x64": True, "timeout": 3000})
+    shards.append({"name": "C18-support-f32", "shard": 201, "items": [], "support": True, "x64": False, "timeout": 3000})
     if tier == "thorough":
         small = [it for it in items if it["origin"] != "random"]
         for i in range(8):
@@ -157,6 +160,8 @@ def run_shard(shard):
         def __call__(self, *a):
             return self.j(*a)
 
+    if shard.get("support"):
+        _support_pass(shard, rec, make_bundle, rng, fdt, x64)
     for it in shard["items"]:
         try:
             d0, meta = distgen.build_dist(it, jr.PRNGKey(it["bseed"]))
@@ -286,8 +291,96 @@ def run_shard(shard):
     for k, v in hits.items():
         rec.count(k, v)
     out = rec.result()
+    if shard.get("support") and not shard.get("replay"):
+        out["required"] = {"support_gradient_checks": rec.counters.get("support_gradient_checks", 0)}
+        return out
     if not shard.get("replay"):
         out["required"] = {"gradient_checks": rec.counters.get("gradient_checks", 0),
                            "leaf_hit_spline_end": sum(v for k, v in hits.items() if "spline_end" in k),
                            "leaf_hit_leaky_switch": sum(v for k, v in hits.items() if "leaky" in k)}
     return out
+
+
+def _support_pass(shard, rec, make_bundle, rng, fdt, x64):
+    """Restricted supports: log_prob is never NaN (inside, on the edge of, or outside the support) and a finite log_prob has
+    finite gradients w.r.t. the input and every trainable parameter."""
+    import equinox as eqx
+    import jax
+    import jax.numpy as jnp
+    import flowjax.bijections as B
+    import flowjax.distributions as D
+    from fjmon.common import chash, jsonable, perturb
+
+    J = lambda a: jnp.asarray(np.asarray(a, dtype=fdt))
+    pos = lambda: np.concatenate([np.exp(rng.normal(size=12) * s_) for s_ in (0.1, 1.0, 3.0)] +
+                                 [np.array([1e-30, 1e-8, 1e-3, 20.0, 40.0, 41.0, 60.0, 88.0, 89.0, 100.0, 500.0, 709.0, 710.0, 800.0, 1e3, 3e3, 1e4, 1e6]),
+                                  np.array([0.0, -0.0, -1e-30, -1.0, -50.0, -1e4])])
+    unit = lambda: np.concatenate([np.tanh(rng.normal(size=24) * 2), np.array([0.0, 1.0, -1.0, 1 - 1e-12, -1 + 1e-12, 1 - 1e-6, np.nextafter(1.0, 0), -np.nextafter(1.0, 0),
+                                                                               1.0000001, -1.5, 30.0, -1e4])])
+    cases = [
+        ("LogNormal(0.2, 0.8)", lambda: D.LogNormal(J(0.2), J(0.8)), pos),
+        ("LogNormal((3,))", lambda: D.LogNormal(J([0.0, 1.0, -1.0]), J([0.5, 1.0, 2.0])), pos),
+        ("Exponential(1.7)", lambda: D.Exponential(J(1.7)), pos),
+        ("Exponential((2,))", lambda: D.Exponential(J([0.01, 30.0])), pos),
+        ("Transformed(StandardNormal, SoftPlus)", lambda: D.Transformed(D.StandardNormal(()), B.SoftPlus(())), pos),
+        ("Transformed(Normal(900, 2000), SoftPlus)", lambda: D.Transformed(D.Normal(J(900.0), J(2000.0)), B.SoftPlus(())), pos),
+        ("Transformed(Cauchy(), SoftPlus)", lambda: D.Transformed(D.Cauchy(J(0.0), J(1.0)), B.SoftPlus(())), pos),
+        ("Transformed(Normal((2,)), Chain[Affine, SoftPlus])", lambda: D.Transformed(D.Normal(J([0.0, 1.0]), J([1.0, 50.0])), B.Chain([B.Affine(J([0.5, -1.0]), J([2.0, 0.3])), B.SoftPlus((2,))])), pos),
+        ("Transformed(StandardNormal, Exp)", lambda: D.Transformed(D.StandardNormal(()), B.Exp(())), pos),
+        ("Transformed(StudentT(3), Exp)", lambda: D.Transformed(D.StudentT(J(3.0), J(0.0), J(1.0)), B.Exp(())), pos),
+        ("Transformed(Exponential, Invert(Exp))", lambda: D.Transformed(D.Exponential(J(1.3)), B.Invert(B.Exp(()))), lambda: np.concatenate([rng.normal(size=24) * 3, np.array([-800.0, -100.0, 0.0, 50.0, 700.0, 720.0])])),
+        ("Transformed(Normal, Tanh)", lambda: D.Transformed(D.Normal(J(0.3), J(1.5)), B.Tanh(())), unit),
+        ("Transformed(Normal((2,)), Tanh)", lambda: D.Transformed(D.Normal(J([0.0, -1.0]), J([1.0, 4.0])), B.Tanh((2,))), unit),
+        ("Transformed(Logistic, Chain[Tanh, Affine])", lambda: D.Transformed(D.Logistic(J(0.0), J(1.0)), B.Chain([B.Tanh(()), B.Affine(J(1.0), J(2.0))])),
+         lambda: 1.0 + 2.0 * unit()),
+        ("Uniform(-1, 2.5)", lambda: D.Uniform(J(-1.0), J(2.5)), lambda: np.concatenate([rng.uniform(-1, 2.5, size=16), np.array([-1.0, 2.5, np.nextafter(-1.0, -2), np.nextafter(2.5, 3), -3.0, 7.0, 1e6])])),
+        ("Uniform((2,))", lambda: D.Uniform(J([0.0, -5.0]), J([1e-3, 5.0])), lambda: np.concatenate([rng.uniform(0, 1e-3, size=16), np.array([0.0, 1e-3, -1e-9, 2e-3, 4.0])])),
+    ]
+    for ci, (name, build, gen) in enumerate(cases):
+        it = {"kind": "support", "name": name, "index": ci, "origin": "support", "dtype": "float64" if x64 else "float32"}
+        only = shard.get("items")
+        try:
+            d0 = build()
+        except Exception as e:  # noqa: BLE001
+            rec.violation(f"build.{type(e).__name__}", f"{name}: constructor raised {type(e).__name__}: {str(e)[:200]}", it, ("init", 0.0), {})
+            continue
+        run = make_bundle(None)
+        for mode in [("init", 0.0), ("sigma", 0.5)]:
+            d = d0 if mode[0] == "init" else perturb(d0, mode[1], 77 + ci, clip=6.0)
+            pts = np.asarray(gen(), dtype=np.float64)
+            if d.shape:
+                pts = np.stack([pts] + [np.roll(pts, 7 * (k + 1)) for k in range(int(np.prod(d.shape)) - 1)], -1).reshape((len(pts),) + tuple(d.shape))
+            xs = pts.astype(fdt)
+            try:
+                out = {k: np.asarray(v) for k, v in run(d, jnp.asarray(xs), None).items()}
+            except Exception as e:  # noqa: BLE001
+                rec.violation(f"exception.{type(e).__name__}", f"{name} [{mode}]: log_prob/grad raised {type(e).__name__}: {str(e)[:300]}", it, mode, {})
+                continue
+            N = len(xs)
+            rec.evals += N
+            lp = out["lp"].astype(np.float64)
+            fin = np.isfinite(lp) & (np.abs(lp) <= (1e8 if x64 else 1e5))
+            rec.count("support_logprob_finite", int(fin.sum()))
+            rec.count("support_logprob_minus_inf", int(np.isneginf(lp).sum()))
+            rec.count("support_gradient_checks", 2 * int(fin.sum()))
+            nanlp = np.isnan(lp) | np.isposinf(lp)
+            det = lambda i: {"x": xs[i], "log_prob": lp[i], "name": name, "dtype": it["dtype"]}
+            if nanlp.any():
+                i = int(np.where(nanlp)[0][0])
+                rec.violation("logprob.nan", f"{name} [{mode}]: log_prob returned {lp[i]} at x={xs[i].tolist()}", it, mode, det(i))
+            badx = fin & ~out["gx_finite"]
+            if badx.any():
+                i = int(np.where(badx)[0][0])
+                rec.violation("grad.input", f"{name} [{mode}] ({it['dtype']}): log_prob={lp[i]:.6g} is finite but its gradient w.r.t. the input is {out['gx'][i].tolist()} at "
+                                            f"x={xs[i].tolist()} ({int(badx.sum())} of {N} points)", it, mode, det(i))
+            bl = out["bad_leaf"]
+            badp = fin & (bl.any(1) if bl.size else np.zeros(N, bool))
+            if badp.any():
+                i = int(np.where(badp)[0][0])
+                rec.violation("grad.params", f"{name} [{mode}] ({it['dtype']}): log_prob={lp[i]:.6g} is finite but {int(bl[i].sum())} of {bl.shape[1]} parameter-gradient leaves "
+                                             f"are non-finite at x={xs[i].tolist()} ({int(badp.sum())} of {N} points)", it, mode, det(i))
+            for i in np.where(fin)[0][:: max(1, int(fin.sum()) // 6)][:6]:
+                rec.nontrivial.add(chash("support", name, list(mode), x64, int(i)))
+            if len(rec.samples) < 3 and fin.any():
+                i = int(np.where(fin)[0][-1])
+                rec.samples.append(jsonable({"distribution": name, "param_mode": mode, "x": xs[i], "log_prob": lp[i], "grad_x": out["gx"][i]}))
